@@ -30,6 +30,7 @@ type c14Shared struct {
 	w2    *spg.WLRecipe
 	w3    *spg.WLRecipe
 	sf    spg.SFFunction
+	c2    spg.CharRecipe // class flags: Allow, Require and Exclude all set
 }
 
 func newC14Shared() *c14Shared {
@@ -49,6 +50,7 @@ func newC14Shared() *c14Shared {
 	x.w2.Capitalize = spg.CSRandom
 	x.w2.SeparatorFunc = spg.SFDigits1
 	x.sf = spg.NewSFFunction(spg.CharRecipe{Length: 1, AllowChars: "xy", RequireSets: []string{"z"}})
+	x.c2 = spg.CharRecipe{Length: 3, Allow: spg.Lowers, Require: spg.Digits | spg.Symbols, Exclude: spg.Ambiguous}
 	x.w3 = spg.NewWLRecipe(2, wl)
 	x.w3.Capitalize = spg.CSAll
 	x.w3.SeparatorFunc = x.sf
@@ -79,6 +81,8 @@ var c14Calls = map[string]c14Call{
 	"c.Entropy":            {"c.Entropy", func(x *c14Shared) string { return fmt.Sprintf("%08x", math.Float32bits(x.c.Entropy())) }},
 	"c.Alphabet":           {"c.Alphabet", func(x *c14Shared) string { return x.c.Alphabet() }},
 	"c.SuccessProbability": {"c.SuccessProbability", func(x *c14Shared) string { return fmt.Sprintf("%08x", math.Float32bits(x.c.SuccessProbability())) }},
+	"c2.Generate":          {"c2.Generate", func(x *c14Shared) string { return genStr(x.c2.Generate) }},
+	"c2.Entropy":           {"c2.Entropy", func(x *c14Shared) string { return fmt.Sprintf("%08x", math.Float32bits(x.c2.Entropy())) }},
 	"w.Generate":           {"w.Generate", func(x *c14Shared) string { return genStr(x.w.Generate) }},
 	"w.Entropy":            {"w.Entropy", func(x *c14Shared) string { return fmt.Sprintf("%08x", math.Float32bits(x.w.Entropy())) }},
 	"w.Size":               {"w.Size", func(x *c14Shared) string { return fmt.Sprintf("%d %d", x.w.Size(), x.wl.Size()) }},
@@ -115,6 +119,8 @@ var c14Scenarios = []c14Scenario{
 	{"WL two calls each: Generate,Generate || Generate,Entropy", [][]string{{"w.Generate", "w.Generate"}, {"w.Generate", "w.Entropy"}}},
 	{"w3.Generate (uses sf) || sf()", [][]string{{"w3.Generate"}, {"sf()"}}},
 	{"w3.Generate || w3.Entropy || w.Generate", [][]string{{"w3.Generate"}, {"w3.Entropy"}, {"w.Generate"}}},
+	{"class-flag recipe: Generate||Generate", [][]string{{"c2.Generate"}, {"c2.Generate"}}},
+	{"class-flag recipe: Generate||Entropy||Generate(other recipe)", [][]string{{"c2.Generate"}, {"c2.Entropy"}, {"c.Generate"}}},
 }
 
 // per-thread tape policies: thread 0's first candidate fails the requirement
@@ -158,15 +164,21 @@ var (
 func c14Scenario1(c *core.Ctx, si int, sc c14Scenario, bound int) {
 	n := len(sc.Threads)
 	// sequential results of every call on its thread's tape, each thread on
-	// its own freshly built values (so nothing is warmed up for the others)
-	want := make([][]string, n)
+	// its own freshly built values. They are computed only AFTER the first
+	// schedule has run, so that the first schedule of a worker process sees
+	// package-level lazily initialised state cold (each scenario is the
+	// first one in some worker: the scenario order is rotated by shard).
+	var want [][]string
 	mkTape := func(i int) *tape.Tape { return policyTape(c14Policies[i]) }
-	for i, calls := range sc.Threads {
-		x0 := newC14Shared()
-		t := mkTape(i)
-		install(t)
-		for _, name := range calls {
-			want[i] = append(want[i], safe(func() string { return c14Calls[name].Do(x0) }))
+	computeWant := func() {
+		want = make([][]string, n)
+		for i, calls := range sc.Threads {
+			x0 := newC14Shared()
+			t := mkTape(i)
+			install(t)
+			for _, name := range calls {
+				want[i] = append(want[i], safe(func() string { return c14Calls[name].Do(x0) }))
+			}
 		}
 	}
 	// every schedule runs on brand-new shared values: lazily initialised
@@ -231,6 +243,16 @@ func c14Scenario1(c *core.Ctx, si int, sc c14Scenario, bound int) {
 			c.Violation(key+" deadlock", "no thread can run (deadlock) under schedule "+fmt.Sprint(plan), rp)
 			bad = true
 		}
+		if want == nil {
+			saved := make([][]string, n)
+			for i := range got {
+				saved[i] = append([]string{}, got[i]...)
+			}
+			computeWant()
+			for i := range got {
+				got[i] = saved[i]
+			}
+		}
 		for i := range want {
 			if !reflect.DeepEqual(got[i], want[i]) {
 				c.Violation(key+" result", fmt.Sprintf("thread %d (%v) returned %q under schedule %v; alone on the same random stream it returns %q", i, sc.Threads[i], got[i], plan, want[i]), rp)
@@ -273,6 +295,13 @@ func c14Run(c *core.Ctx) {
 	if os.Getenv("VERIF_RACE_LOG") == "" {
 		c.Incomplete("race log not configured")
 	}
+	// calibrate every (bound, outcome) the policy tapes can ask for now:
+	// calibration swaps tapes and must not happen inside a managed thread
+	for n := uint32(1); n <= 128; n++ {
+		for r := uint32(0); r < n; r++ {
+			cal.Rep(n, r)
+		}
+	}
 	verifrt.PointHook = sched.Point
 	vsync.BlockHook = sched.Block
 	vsync.UnblockHook = sched.Unblock
@@ -308,6 +337,19 @@ func c14Run(c *core.Ctx) {
 			}
 		}
 	}
+	// rotate: scenario (shard mod #scenarios) comes first in this worker
+	if len(jobs) > 0 {
+		k := c.Shard % len(c14Scenarios)
+		var first, rest []job
+		for _, j := range jobs {
+			if j.si == k && j.bound == 1 {
+				first = append(first, j)
+			} else {
+				rest = append(rest, j)
+			}
+		}
+		jobs = append(first, rest...)
+	}
 	for _, j := range jobs {
 		if c.Expired() {
 			c.Incomplete("deadline before scenario %d bound %d", j.si, j.bound)
@@ -334,7 +376,7 @@ func init() {
 		ID:    "C14",
 		Level: "model_checking",
 		Build: "race",
-		Rule: "15 scenarios of 2-3 threads x 1-2 calls on shared CharRecipe, WLRecipe, WordList, constructed and preset separator functions; scheduling points before every statement of package spg and at every lock operation of golang-set (instrumented copy, -race build); ALL schedules with at most 1 deviation from the default schedule (quick; thorough: at most 2 on every two-thread scenario) are executed by a controlled scheduler whose hand-offs are invisible to the race detector; " +
+		Rule: "17 scenarios of 2-3 threads x 1-2 calls on shared CharRecipe, WLRecipe, WordList, constructed and preset separator functions; scheduling points before every statement of package spg and at every lock operation of golang-set (instrumented copy, -race build); ALL schedules with at most 1 deviation from the default schedule (quick; thorough: at most 2 on every two-thread scenario) are executed by a controlled scheduler whose hand-offs are invisible to the race detector; " +
 			"every schedule starts from freshly built shared values (lazily initialised state is cold); oracle per schedule: every call returns what it returns alone on the same random stream, shared values unchanged, no deadlock, race detector silent; non-trivial = distinct (scenario, switches, results) observations",
 		Assume:  []string{"bounded deviations (preemptions and non-default thread choices both cost 1)", "memory-model effects beyond what the race detector flags are not modelled", "helper goroutines spawned by golang-set's Iter() talk only to their spawner and run free"},
 		Run:     c14Run,
